@@ -142,7 +142,14 @@ func (fr *frame) runDefers() {
 }
 
 func lookupMethod(i *interpreter, typ types.Type, meth *types.Func) *ssa.Function {
-	return i.prog.LookupMethod(typ, meth.Pkg(), meth.Name())
+	if typ == nativeReaderType {
+		return nil
+	}
+	sel := i.prog.MethodSets.MethodSet(typ).Lookup(meth.Pkg(), meth.Name())
+	if sel == nil {
+		return nil
+	}
+	return i.prog.MethodValue(sel)
 }
 
 func (fr *frame) step() {
@@ -411,6 +418,10 @@ func call(i *interpreter, caller *frame, callpos token.Pos, fn value, args []val
 	case *ssa.Builtin:
 		return callBuiltin(caller, callpos, fn, args)
 	case nativeMethod:
+		switch fn.name {
+		case "Close":
+			return iface{}
+		}
 		panic(pathAbort{"unsupported", fmt.Sprintf("method %s on %s", fn.name, fn.t)})
 	case *Sym:
 		return call(i, caller, callpos, caller.concretize(fn), args)
